@@ -180,7 +180,7 @@ def check_owned(recipe) -> list[Fail]:
             if not res["acquired"]:
                 fails.append(Fail(f"lock-not-acquirable:after-{prev.split(' ')[0]}", when + f": could not enter within {cc.TIMEOUT}s although no session is running"))
                 break
-            failing = kind not in ("read_all", "write1", "write2", "read_write1")
+            failing = kind not in ("read_all", "write1", "write2", "read_write1", "write_emptykey", "killed_mid_append")
             if not failing and res["exc"] is not None:
                 fails.append(Fail("good-session-raises", when + f": {res['exc']}"))
                 break
@@ -194,7 +194,12 @@ def check_owned(recipe) -> list[Fail]:
             if not pr["ok"]:
                 fails.append(Fail(f"lock-not-released:after-{kind}", when + f": a fresh process cannot take the write lock within {PROBE_S} s although no session is running"))
                 break
-            if kind in ("write1", "write2", "read_write1"):
+            if kind == "write_emptykey":
+                for k_, hv_ in (res.get("put_map") or {}).items():
+                    must[k_] = bytes.fromhex(hv_)
+            elif kind == "killed_mid_append":
+                pass      # no record: the torn bytes must never show up as one
+            elif kind in ("write1", "write2", "read_write1"):
                 for k, v in zip(keys, vals):
                     if k in res["put_ok"]:
                         must[k] = v
@@ -241,7 +246,7 @@ def classify_owned(recipe):
     labels = [f"k={len(s)}"]
     nt = False
     for (h1, k1), (h2, k2) in zip(s, s[1:]):
-        f1 = cc.KINDS[k1] not in ("read_all", "write1", "write2", "read_write1")
+        f1 = cc.KINDS[k1] not in ("read_all", "write1", "write2", "read_write1", "write_emptykey", "killed_mid_append")
         if f1 and h1 != h2:
             nt = True
             labels.append("failing_then_other_handle")
@@ -253,7 +258,7 @@ def classify_owned(recipe):
             labels.append("stale_handle_writes_after_other_writer")
     for _, k in s:
         labels.append("kind=" + cc.KINDS[k])
-    if len(s) == 1 and cc.KINDS[s[0][1]] not in ("read_all", "write1", "write2", "read_write1"):
+    if len(s) == 1 and cc.KINDS[s[0][1]] not in ("read_all", "write1", "write2", "read_write1", "write_emptykey", "killed_mid_append"):
         nt = True   # the probe process is "another process" following the failing session
     return nt, labels
 
@@ -703,7 +708,7 @@ LEGS = [
     Leg(
         "owned", check_owned, classify_owned, enumerate=enum_owned, exhaustive=True,
         shards={"quick": 16, "thorough": 32},
-        rule="ALL sequences of k<=2 (quick: 3 handles) / k<=3 (thorough: 4 handles) sessions over 16 session kinds (read, write1, write2, read-an-existing-record-then-write, fail in body by Exception / KeyboardInterrupt / SystemExit / encoder / flush-time backend write / stream write inside UKVFile.put / end_write / reader body / end_read / begin_write / begin_read); lock probed from a fresh process after every session; non-trivial = failing session followed by a session on another handle (or by the probe process), or a stale handle writing after another writer",
+        rule="ALL sequences of k<=2 (quick: 3 handles) / k<=3 (thorough: 4 handles) sessions over 18 kinds (read, write1, write2, read-an-existing-record-then-write, a record under the empty key, ANOTHER process killed in mid-append between two sessions (torn tail), fail in body by Exception / KeyboardInterrupt / SystemExit / encoder / flush-time backend write / stream write inside UKVFile.put / end_write / reader body / end_read / begin_write / begin_read); lock probed from a fresh process after every session; non-trivial = failing session followed by a session on another handle (or by the probe process), or a stale handle writing after another writer",
     ),
     Leg(
         "owned_rand", check_owned, classify_owned, strategy=strat_owned,
